@@ -378,6 +378,13 @@ func init() {
 	// JSON-schema validation of service documents (gojsonschema: reflection): the documents a harness
 	// submits are taken to conform; the native replay of every cover witness runs the real validation
 	externals["mods.irisnet.org/modules/service/types.validateDocument"] = func(fr *frame, args []value) value { return iface{} }
+	// the input / output part of a schemas document is only ever handed to validateDocument
+	externals["mods.irisnet.org/modules/service/types.parseInputSchema"] = func(fr *frame, args []value) value {
+		return tuple{bytesToValue([]byte("{}")), iface{}}
+	}
+	externals["mods.irisnet.org/modules/service/types.parseOutputSchema"] = func(fr *frame, args []value) value {
+		return tuple{bytesToValue([]byte("{}")), iface{}}
+	}
 	externals["mods.irisnet.org/modules/service/types.ValidateServiceSchemas"] = func(fr *frame, args []value) value {
 		if s, ok := args[0].(string); ok && len(s) == 0 {
 			return fr.i.mkError("schemas missing")
